@@ -96,9 +96,12 @@ def elementwise(cx, op, a, b) -> Arr:
             if isinstance(other, Arr) and not isinstance(other, Filtered) and other.ndim > 0:
                 raise Unsupported("compressed array combined with a full array")
 
-        def sf(i, a=a, b=b):
-            x = a.src_fn(i) if isinstance(a, Filtered) else (a.at() if isinstance(a, Arr) else a)
-            y = b.src_fn(i) if isinstance(b, Filtered) else (b.at() if isinstance(b, Arr) else b)
+        xa = a.src_fn if isinstance(a, Filtered) else (a.at() if isinstance(a, Arr) else a)
+        xb = b.src_fn if isinstance(b, Filtered) else (b.at() if isinstance(b, Arr) else b)
+
+        def sf(i):
+            x = xa(i) if isinstance(a, Filtered) else xa
+            y = xb(i) if isinstance(b, Filtered) else xb
             return scalar_op(op, x, y)
 
         return Filtered(ref.mask, sf, kind, ref.shape[0], ref.g)
@@ -108,10 +111,12 @@ def elementwise(cx, op, a, b) -> Arr:
     for c in conds:
         cx.oblige("broadcast: operand shapes agree", c, kind="shape")
     n = len(shape)
+    fa = a.fn if isinstance(a, Arr) else None
+    fb = b.fn if isinstance(b, Arr) else None
 
     def fn(*idx):
-        x = a.fn(*V.bcast_index(sa, n, idx)) if isinstance(a, Arr) else a
-        y = b.fn(*V.bcast_index(sb, n, idx)) if isinstance(b, Arr) else b
+        x = fa(*V.bcast_index(sa, n, idx)) if fa is not None else a
+        y = fb(*V.bcast_index(sb, n, idx)) if fb is not None else b
         return scalar_op(op, x, y)
 
     r = Arr(shape, fn, kind)
@@ -227,8 +232,8 @@ def make_filtered(cx, src: Arr, mask: Arr) -> Filtered:
                 z3.And(ginv(ii) >= 0, ginv(ii) < m, g(ginv(ii)) == ii),
             )
 
-        u1 = UnivFact(1, f1)
-        u2 = UnivFact(1, f2)
+        u1 = UnivFact(1, f1, decls=[g])
+        u2 = UnivFact(1, f2, decls=[ginv])
         cx.univ.extend([u1, u2])
         cache[key] = (g, ginv, m, u1, u2, mask)
     g, ginv, m, u1, u2, _ = cache[key]
@@ -293,7 +298,7 @@ def index(cx, arr: Arr, idx):
                 fancy_out_pos = len(out_shape)
                 out_shape.extend(fshape)
                 fancy_placed = True
-            plan.append(("fancy", i))
+            plan.append(("fancy", (i.fn, i.shape)))
         else:
             ii = norm_const_index(i, arr.shape[ax])
             if V.kind_of(ii) != "int":
@@ -317,7 +322,7 @@ def index(cx, arr: Arr, idx):
                 sidx.append(data)
             else:
                 fi = oidx[fancy_out_pos : fancy_out_pos + nf]
-                sidx.append(data.fn(*V.bcast_index(data.shape, nf, fi)))
+                sidx.append(data[0](*V.bcast_index(data[1], nf, fi)))
         return src_fn(*sidx)
 
     res = Arr(tuple(out_shape), fn, arr.kind)
@@ -397,6 +402,9 @@ def store(cx, arr: Arr, idx, val):
         if len(bshape) != len(vshape):
             raise PyRaise("ValueError", ("could not broadcast",))
 
+    vfn = val.fn if isinstance(val, Arr) else None
+    vsh = val.shape if isinstance(val, Arr) else None
+
     def fn(*t):
         cond = True
         vidx = []
@@ -406,8 +414,8 @@ def store(cx, arr: Arr, idx, val):
             else:
                 cond = V.s_and(cond, V.s_and(V.s_cmp("<=", a, t[ax]), V.s_cmp("<", t[ax], b)))
                 vidx.append(V.s_binop("-", t[ax], a))
-        if isinstance(val, Arr):
-            v = val.fn(*V.bcast_index(val.shape, len(vidx), vidx)) if val.ndim else val.fn()
+        if vfn is not None:
+            v = vfn(*V.bcast_index(vsh, len(vidx), vidx)) if len(vsh) else vfn()
         else:
             v = val
         return V.s_ite(cond, V.cast_kind(v, kind), old(*t))
@@ -775,10 +783,14 @@ def elementwise_ite(cx, c, a, b):
     ka, kb = V.kind_of(a), V.kind_of(b)
     kind = "real" if "real" in (ka, kb) else "bool" if ka == kb == "bool" else "int"
 
+    fc = c.fn if isinstance(c, Arr) else None
+    fa = a.fn if isinstance(a, Arr) else None
+    fb = b.fn if isinstance(b, Arr) else None
+
     def fn(*idx):
-        cv = c.fn(*V.bcast_index(shapes[0], n, idx)) if isinstance(c, Arr) else c
-        av = a.fn(*V.bcast_index(shapes[1], n, idx)) if isinstance(a, Arr) else a
-        bv = b.fn(*V.bcast_index(shapes[2], n, idx)) if isinstance(b, Arr) else b
+        cv = fc(*V.bcast_index(shapes[0], n, idx)) if fc is not None else c
+        av = fa(*V.bcast_index(shapes[1], n, idx)) if fa is not None else a
+        bv = fb(*V.bcast_index(shapes[2], n, idx)) if fb is not None else b
         return V.s_ite(V.sbool(cv), V.cast_kind(av, kind), V.cast_kind(bv, kind))
 
     if not shape:
